@@ -229,8 +229,8 @@ Definition handle_offset_response (kind v : Z) : M unit :=
   upd (fun s => set_att 1 (set_ridx 0 (set_req None s))) ;;;                       (* 594-598 *)
   s <- get ;;
   (if kind =? R_OFFREQ then upd (set_foff v)                                       (* 601-603 *)
-   else if v =? -1 then                                                            (* 608-612 OFFSET_NOT_COMMITTED *)
-     upd (set_foff (if c_reset (s_cf s) =? 2 then OFF_LATEST else OFF_EARLIEST))
+   else if v =? -1 then                                    (* 641-648 OFFSET_NOT_COMMITTED: the group has none (b73c7f1) *)
+     upd (fun s => set_lc None (set_foff (if c_reset (s_cf s) =? 2 then OFF_LATEST else OFF_EARLIEST) s))
    else upd (fun s => set_lc (Some v) (set_foff (v + 1) s))) ;;;                   (* 614-615 *)
   do_fetch.                                                                        (* 616 *)
 
